@@ -257,7 +257,8 @@ def gen_call(rng, plots=True):
         return {'fn': 'logicle', 'obj': rng.choice([S, 'arr']), 'ch': rng.choice([0, 2]), 'aslist': rng.chance(0.3)}
     if fam == 'plot_hist1d':
         return {'fn': 'plot_hist1d', 'obj': S, 'aslist': rng.chance(0.5), 'ch': rng.choice(['FL1-H', 2, 'FSC-H']),
-                'xscale': rng.choice(SCALES), 'bins': rng.choice([None, 16, 'edges'])}
+                'xscale': rng.choice(SCALES), 'bins': rng.choice([None, 16, 'edges']),
+                'norm': rng.choice([None, 'area', 'height', 'height', 'both']), 'weights': rng.chance(0.5)}
     if fam == 'plot_density2d':
         return {'fn': 'plot_density2d', 'obj': S, 'ch': rng.choice([[0, 1], ['FSC-H', 'SSC-H']]),
                 'bins': rng.choice(['int', 'pair', 'mixed']), 'n': rng.choice([8, 16]), 'mode': rng.choice(['mesh', 'scatter']),
@@ -473,8 +474,17 @@ def build_call(F, op, target, pool, beads=None):
     if fn == 'plot_hist1d':
         data = [T, T[5:30]] if op['aslist'] else T
         bins = np.linspace(0, 1024, 17) if op['bins'] == 'edges' else op['bins']
-        return Call(F.plot.hist1d, [data], {'channel': op['ch'], 'xscale': op['xscale'], 'bins': bins},
-                    watch=[T, data, bins], label='plot.hist1d')
+        kw = {'channel': op['ch'], 'xscale': op['xscale'], 'bins': bins}
+        if op.get('norm') in ('area', 'both'):
+            kw['normed_area'] = True
+        if op.get('norm') in ('height', 'both'):
+            kw['normed_height'] = True
+        w = None
+        if op.get('weights') and not op['aslist']:
+            # caller-owned per-event weights handed through to the histogram call
+            w = np.full(T.shape[0], 2.0)
+            kw['weights'] = w
+        return Call(F.plot.hist1d, [data], kw, watch=[T, data, bins, w], label='plot.hist1d')
     if fn == 'plot_density2d':
         kw = {'channels': list(op['ch']), 'bins': mk_bins(op['bins'], op['n'], None), 'mode': op['mode'],
               'xscale': op['xscale'], 'yscale': op['yscale'], 'sigma': 1.0}
